@@ -2,7 +2,7 @@
    Model: C07_Model.v (transcription of mpicommunication.hh / communication.hh / mpitraits.hh / mpidata.hh / mpipack.hh),
    Spec: C07_Spec.v.  The MPI library's own collectives are the trusted semantics c07_MPI_*. *)
 From Coq Require Import List NArith ZArith Bool Arith Permutation.
-From DuneV Require Import C07_Model C07_Spec C07_Proofs.
+From DuneV Require Import C07_Model C07_Spec C07_Proofs C07_Proofs_Coll.
 Import ListNotations.
 
 (* rrecv (MPI_Mprobe + MPI_Get_count + resize + MPI_Mrecv): for every element type with a non-empty packed size, every sent
@@ -256,3 +256,107 @@ Theorem C07_dt_pair_unresized_refuted :
   exists src dst, c07_transfer t 2 src dst <> c07_spec_transfer (c07_tm_entries t) 16 2 src dst.
 Proof. exact P_pair_unresized_refuted. Qed.
 Print Assumptions C07_dt_pair_unresized_refuted.
+
+(* ==== every collective wrapper of Communication<MPI_Comm> (argument computations of mpicommunication.hh, incl. the igather / iscatter /
+   iallgather counts after 954025b) over the trusted MPI semantics c07_MPI_* delivers the ROUTING SPEC: what every rank ends with is
+   c07_spec_apply / c07_spec_allreduce of the rank-indexed contributions -- for every process count P >= 1, every root, every length
+   (incl. 0 and rank-dependent lengths), every displacement vector within bounds, every merge (partially communicated element types).
+   blocks_ok n lens displs: receive blocks inside a buffer of n elements and pairwise disjoint (as MPI requires); sends_ok: every rank
+   holds the announced number of elements; scatter_ok: send blocks inside root's buffer (may overlap), receive buffers long enough. ==== *)
+Theorem C07_collectives_are_spec : forall (E : Type) (merge : E -> E -> E),
+  (* sum / prod / min / max / allreduce<F>(in,out,len), iallreduce(in,out); and the in-place forms *)
+  (forall f len ins outs, ins <> [] -> Forall (fun b => len <= length b) ins -> Forall (fun o => len <= length o) outs ->
+     c07_mpi_allreduce E merge f len ins outs = Some (c07_spec_allreduce E merge f len ins outs)) /\
+  (forall f len inouts, inouts <> [] -> Forall (fun b => len <= length b) inouts ->
+     c07_mpi_allreduce_inplace E merge f len inouts = Some (c07_spec_allreduce E merge f len inouts inouts)) /\
+  (* broadcast, ibroadcast *)
+  (forall root len inouts, root < length inouts -> Forall (fun b => len <= length b) inouts ->
+     c07_mpi_bcast E merge root len inouts = Some (c07_spec_apply E merge (c07_rt_bcast root len) inouts inouts)) /\
+  (* gather, igather, gatherv *)
+  (forall root len ins outs, root < length outs -> Forall (fun b => len <= length b) ins -> length ins * len <= length (nth root outs []) ->
+     c07_mpi_gather E merge root len ins outs = Some (c07_spec_apply E merge (c07_rt_gather (length ins) root len) ins outs)) /\
+  (forall root l ins outs, root < length outs -> root < length ins -> Forall (fun b => length b = l) ins ->
+     length ins * l <= length (nth root outs []) ->
+     c07_mpi_igather E merge root ins outs = Some (c07_spec_apply E merge (c07_rt_gather (length ins) root l) ins outs)) /\
+  (forall root ins lens displs outs, root < length outs -> sends_ok E ins lens -> blocks_ok (length (nth root outs [])) lens displs ->
+     c07_mpi_gatherv E merge root ins lens displs outs = Some (c07_spec_apply E merge (c07_rt_gatherv root lens displs) ins outs)) /\
+  (* scatter, iscatter, scatterv *)
+  (forall root len ins outs, root < length ins -> Forall (fun o => len <= length o) outs -> length outs * len <= length (nth root ins []) ->
+     c07_mpi_scatter E merge root len ins outs = Some (c07_spec_apply E merge (c07_rt_scatter root len) ins outs)) /\
+  (forall root l ins outs, root < length ins -> outs <> [] -> Forall (fun o => length o = l) outs ->
+     length (nth root ins []) = length outs * l ->
+     c07_mpi_iscatter E merge root ins outs = Some (c07_spec_apply E merge (c07_rt_scatter root l) ins outs)) /\
+  (forall root ins lens displs outs, root < length ins -> scatter_ok E (length (nth root ins [])) lens displs outs ->
+     c07_mpi_scatterv E merge root ins lens displs outs = Some (c07_spec_apply E merge (c07_rt_scatterv root lens displs) ins outs)) /\
+  (* allgather, iallgather, allgatherv *)
+  (forall len ins outs, Forall (fun b => len <= length b) ins -> Forall (fun o => length ins * len <= length o) outs ->
+     c07_mpi_allgather E merge len ins outs = Some (c07_spec_apply E merge (c07_rt_allgather (length ins) len) ins outs)) /\
+  (forall l ins outs, ins <> [] -> Forall (fun b => length b = l) ins -> Forall (fun o => length ins * l <= length o) outs ->
+     c07_mpi_iallgather E merge ins outs = Some (c07_spec_apply E merge (c07_rt_allgather (length ins) l) ins outs)) /\
+  (forall ins lens displs outs, sends_ok E ins lens -> Forall (fun o => blocks_ok (length o) lens displs) outs ->
+     c07_mpi_allgatherv E merge ins lens displs outs = Some (c07_spec_apply E merge (c07_rt_allgatherv lens displs) ins outs)).
+Proof. exact P_collectives_are_spec. Qed.
+Print Assumptions C07_collectives_are_spec.
+
+(* END TO END for the user-functor path: Generic_MPI_Op creates the op with commute = true, so the library may give EVERY rank its own
+   reduction tree over its own arrangement of the ranks (trees); with the trampoline c07_tramp as the combining step, for every
+   associative AND commutative F, every P >= 1, every length, every choice of trees, every rank ends with the rank-order fold
+   x0 F x1 F ... F x(P-1) of the contributions in each component (c07_spec_allreduce) -- the same as c07_mpi_allreduce *)
+Theorem C07_allreduce_user_functor_end_to_end : forall (E : Type) (merge f : E -> E -> E) len trees ins outs,
+  (forall a b c, f (f a b) c = f a (f b c)) -> (forall a b, f a b = f b a) ->
+  length trees = length outs -> Forall (fun t => Permutation (c07_tree_leaves t) (seq 0 (length ins))) trees ->
+  ins <> [] -> Forall (fun b => len <= length b) ins -> Forall (fun o => len <= length o) outs ->
+  c07_MPI_allreduce_trees E merge f len trees ins outs = Some (c07_spec_allreduce E merge f len ins outs).
+Proof. exact MPI_allreduce_trees_spec. Qed.
+Print Assumptions C07_allreduce_user_functor_end_to_end.
+
+(* what commute = true needs.  With associativity alone the rank-order fold is guaranteed only along trees whose leaves are in rank
+   order (MPI's promise for commute = false) ... *)
+Theorem C07_user_op_associative_only_needs_rank_order : forall (E : Type) (f : E -> E -> E), (forall a b c, f (f a b) c = f a (f b c)) ->
+  forall (xs : list (list E)) (t : c07_tree), c07_tree_leaves t = seq 0 (length xs) ->
+  c07_tree_eval f xs t = c07_reduce_ranks f xs.
+Proof. exact P_user_op_ordered. Qed.
+Print Assumptions C07_user_op_associative_only_needs_rank_order.
+
+(* ... and for an associative NON-commutative functor a legal commute = true schedule gives a different value: the hypothesis
+   "F commutative" of C07_user_op cannot be dropped, i.e. Communication::allreduce<F> equals "the operation applied in rank order"
+   only for commutative F (or an MPI library that happens to keep rank order, as OpenMPI did in all runs of the check) *)
+Theorem C07_user_op_noncommutative_refuted :
+  exists (f : Z -> Z -> Z) (xs : list (list Z)) (t : c07_tree),
+    (forall a b c, f (f a b) c = f a (f b c)) /\ Permutation (c07_tree_leaves t) (seq 0 (length xs)) /\
+    c07_tree_eval f xs t <> c07_reduce_ranks f xs.
+Proof. exact P_user_op_noncommutative_refuted. Qed.
+Print Assumptions C07_user_op_noncommutative_refuted.
+
+Example C07_user_op_noncommutative_example :
+  let f := fun (a _ : Z) => a in
+  c07_tree_eval f [[1%Z]; [2%Z]] (C07_Node (C07_Leaf 1) (C07_Leaf 0)) = [2%Z] /\ c07_reduce_ranks f [[1%Z]; [2%Z]] = [1%Z].
+Proof. split; vm_compute; reflexivity. Qed.
+
+(* ==== one matching send / rrecv pair over the network ==== *)
+(* std::vector<T> / std::string of fully communicated T: received = sent, including the length, whatever the receiver held before *)
+Theorem C07_rrecv_end_to_end : forall (E : Type) (d : E) tsize (sent data : list E), 0 < tsize ->
+  c07_rrecv E (idm E) d tsize sent data = Some sent.
+Proof. exact P_rrecv_end_to_end. Qed.
+Print Assumptions C07_rrecv_end_to_end.
+
+(* MPIPack: the sender writes any well-typed item sequence into a fresh pack and sends it (the whole buffer travels as MPI_PACKED);
+   the receiver rrecv's into a fresh MPIPack and reads the same type sequence: same size, cursor 0, equal values and lengths, eof *)
+Theorem C07_pack_send_rrecv : forall (B V T : Type) (zeroB : B) (enc : T -> V -> list B) (dec : T -> list B -> option (V * list B))
+    (enc_len : nat -> list B) (dec_len : list B -> option (nat * list B)) (wt : T -> V -> Prop) (lenok : nat -> Prop),
+  (forall t v rest, wt t v -> dec t (enc t v ++ rest) = Some (v, rest)) ->
+  (forall n rest, lenok n -> dec_len (enc_len n ++ rest) = Some (n, rest)) ->
+  forall items (p0 : c07_pack B), Forall (wt_item V T wt lenok) items -> c07_pk_pos B p0 = 0 ->
+    let p := c07_pk_write_all B V T zeroB enc enc_len (c07_pk_empty B) items in
+    exists q q', c07_pack_rrecv B zeroB (c07_pack_wire B p) p0 = Some q /\
+                 c07_pk_size B q = c07_pk_size B p /\ c07_pk_tell B q = 0 /\
+                 c07_pk_read_all B V T dec dec_len q (map fst items) = Some (map snd items, q') /\ c07_pk_eof B q' = true.
+Proof. exact P_pack_send_rrecv. Qed.
+Print Assumptions C07_pack_send_rrecv.
+
+(* non-vacuity of the collective theorem's hypotheses: 3 ranks, gatherv with permuted displacements and a gap *)
+Example C07_collectives_example :
+  blocks_ok 7 [2; 1; 0] [3; 0; 6] /\ sends_ok Z [[5; 6]; [7]; []]%Z [2; 1; 0] /\
+  c07_mpi_gatherv Z (idm Z) 1 [[5; 6]; [7]; []]%Z [2; 1; 0] [3; 0; 6] [[]; [-1; -1; -1; -1; -1; -1; -1]; []]%Z
+  = Some [[]; [7; -1; -1; 5; 6; -1; -1]; []]%Z.
+Proof. exact P_collectives_example. Qed.
